@@ -1130,6 +1130,9 @@ class Collection(object):
                             'Unsupported slice format {} for slicing operation: {}'.format(
                                 op_value, op))
                     skip, limit = op_value
+                    if limit <= 0:
+                        raise OperationFailure(
+                            '$slice limit must be positive: {}'.format(op))
                     if skip < 0:
                         skip = len(doc_copy[field]) + skip
                     last = min(skip + limit, len(doc_copy[field]))
